@@ -235,6 +235,9 @@ func (c *Ctx) runRefCases(kind string, progs []*zr.Program, inputs []map[string]
 			oc = "error"
 		}
 		c.Nontrivial(kind + "|" + shape + "|" + oc)
+		c.Count(kind+"_expected_"+oc, 1)
+		c.Count("display_lines_compared", int64(len(refs[i].Display)))
+		c.Count("reference_steps", int64(refs[i].Steps))
 		if status == "diff" {
 			inDesc := ""
 			for _, k := range SortedKeys(req.Inputs) {
